@@ -110,7 +110,8 @@ def judge(ctx, case, method, cv_costs, disps, tm, subpix, d_before, m_before, d_
                 continue  # a valid pixel without a finite disparity is outside every legal pipeline
             pos = (float(db) - dmin) * subpix
             idx = int(round(pos))
-            is_sample = abs(pos - idx) < 1e-6 and 0 <= idx < nd
+            # exactly a sample (float32 multiples of 1/subpix are exact); a value merely close to one is 'not a sample'
+            is_sample = pos == idx and 0 <= idx < nd
             changed_bits = mb ^ ma
             if changed_bits & ~B3:
                 ctx.violation("other-bit-changed", f"pixel ({y},{x}) flag {mb} -> {ma}", case, desc=desc)
